@@ -570,6 +570,15 @@ func c16Converters(c *Ctx) {
 				switch {
 				case ts == "[]*variable.Value":
 					ok, how := le.proveIndexBelowLen(ix)
+					if !ok {
+						// args[i] with i the key of a range over the converter slice: i < len(converters) = the filling
+						// loop's bound, and the length guard entails len(args) >= that bound
+						if ok2, how2 := argIndexByConverterRange(w, mk, lit, le, ix); ok2 {
+							ok, how = true, how2
+						} else if how2 != "" {
+							how += "; " + how2
+						}
+					}
 					c.ob("C16.R5", lit.Name+"/"+exprStr(ix), w.Pos(ix.Pos()), ok, map[bool]string{true: how, false: "an argument is indexed without an entailing length guard (a call with too few arguments would panic instead of returning an error): " + how}[ok])
 				case strings.HasPrefix(ts, "[]func("):
 					ok, how := sameCountedLoop(w, mk, lit, ix)
@@ -661,6 +670,156 @@ func sameCountedLoop(w *World, mk, lit *Func, ix *ast.IndexExpr) (bool, string) 
 		}
 	}
 	return false, "the converter slice is indexed outside a counted loop with the filling loop's bound"
+}
+
+// converterFillBound: the bound expression N of the constructor's `for i := 0; i < N; i++` loop that appends exactly once
+// per non-returning iteration to the converter slice obj (so that the slice holds exactly N elements afterwards).
+func converterFillBound(w *World, mk *Func, obj types.Object) ast.Expr {
+	info := mk.Pkg.TypesInfo
+	var bound ast.Expr
+	loops := 0
+	walkNoLit(mk.Body, func(n ast.Node) bool {
+		fs, ok := n.(*ast.ForStmt)
+		if !ok || fs.Cond == nil {
+			return true
+		}
+		appends, exits := 0, 0
+		ast.Inspect(fs.Body, func(q ast.Node) bool {
+			switch q := q.(type) {
+			case *ast.CallExpr:
+				if isBuiltin(info, q, "append") && len(q.Args) == 2 {
+					if a := identOf(q.Args[0]); a != nil && info.Uses[a] == obj {
+						appends++
+					}
+				}
+			case *ast.BranchStmt:
+				exits++
+			}
+			return true
+		})
+		if appends == 0 {
+			return true
+		}
+		loops++
+		if appends == 1 && exits == 0 {
+			if b, ok := unparen(fs.Cond).(*ast.BinaryExpr); ok && b.Op == token.LSS && startsAtZero(info, fs) {
+				for _, st := range fs.Body.List {
+					if as, ok := st.(*ast.AssignStmt); ok && len(as.Rhs) == 1 {
+						if call, ok := as.Rhs[0].(*ast.CallExpr); ok && isBuiltin(info, call, "append") {
+							bound = b.Y
+						}
+					}
+				}
+			}
+		}
+		return true
+	})
+	// no other append to the slice anywhere in the constructor
+	total := 0
+	ast.Inspect(mk.Body, func(q ast.Node) bool {
+		if call, ok := q.(*ast.CallExpr); ok && isBuiltin(info, call, "append") && len(call.Args) >= 1 {
+			if a := identOf(call.Args[0]); a != nil && info.Uses[a] == obj {
+				total++
+			}
+		}
+		return true
+	})
+	if loops != 1 || total != 1 {
+		return nil
+	}
+	return bound
+}
+
+func argIndexByConverterRange(w *World, mk, lit *Func, le *entFn, ix *ast.IndexExpr) (bool, string) {
+	info := mk.Pkg.TypesInfo
+	iv := identOf(ix.Index)
+	if iv == nil {
+		return false, ""
+	}
+	iobj := info.Uses[iv]
+	for q := w.parent[ix]; q != nil && q != lit.Node(); q = w.parent[q] {
+		rs, ok := q.(*ast.RangeStmt)
+		if !ok || rs.Key == nil || identOf(rs.Key) == nil || info.Defs[identOf(rs.Key)] != iobj {
+			continue
+		}
+		if len(le.assigns[iobj]) != 1 {
+			return false, "the range key is reassigned"
+		}
+		sid := identOf(rs.X)
+		if sid == nil {
+			return false, ""
+		}
+		if tv, ok := info.Types[rs.X]; !ok || !strings.HasPrefix(typeStr(tv.Type), "[]func(") {
+			return false, ""
+		}
+		sobj := info.Uses[sid]
+		// the converter slice is not written in the literal
+		written := false
+		ast.Inspect(lit.Body, func(n ast.Node) bool {
+			if as, ok := n.(*ast.AssignStmt); ok {
+				for _, l := range as.Lhs {
+					if r := identOfRoot(l); r != nil && info.Uses[r] == sobj {
+						written = true
+					}
+				}
+			}
+			return true
+		})
+		bound := converterFillBound(w, mk, sobj)
+		if bound == nil || written {
+			return false, "the ranged converter slice is not filled by a single counted loop"
+		}
+		// a guard of the literal whose failure (entailed at the index) gives len(args) >= bound:
+		// len(args) != bound, len(args) < bound, or their mirror images
+		mx, lx := w.expander(mk), w.expander(lit)
+		want := mx.str(bound)
+		at := site{pos: ix.Pos(), anc: ix}
+		kc := keyCtx{e: le, s: &at}
+		why := "no guard compares len(" + exprStr(ix.X) + ") with " + exprStr(bound)
+		proved := false
+		ast.Inspect(lit.Body, func(n ast.Node) bool {
+			b, ok := n.(*ast.BinaryExpr)
+			if !ok || proved {
+				return !proved
+			}
+			isLen := func(e ast.Expr) bool {
+				call, ok := unparen(e).(*ast.CallExpr)
+				return ok && isBuiltin(info, call, "len") && len(call.Args) == 1 && exprStr(call.Args[0]) == exprStr(ix.X)
+			}
+			var other ast.Expr
+			op := b.Op
+			switch {
+			case isLen(b.X):
+				other = b.Y
+			case isLen(b.Y):
+				other = b.X
+				op = map[token.Token]token.Token{token.LSS: token.GTR, token.GTR: token.LSS, token.LEQ: token.GEQ, token.GEQ: token.LEQ, token.NEQ: token.NEQ, token.EQL: token.EQL}[op]
+			default:
+				return true
+			}
+			if lx.str(other) != want {
+				return true
+			}
+			var goal Formula
+			switch op {
+			case token.NEQ, token.LSS:
+				goal = Not{le.cond(kc, b, 0)} // len == bound, or len >= bound
+			case token.EQL, token.GEQ:
+				goal = le.cond(kc, b, 0)
+			default:
+				return true
+			}
+			if ok, how := le.Prove(ix, goal); ok {
+				proved = true
+				why = "the index ranges over the converter slice, which holds exactly " + exprStr(bound) + " elements (one append per iteration of the counted loop), and the guard `" + exprStr(b) + "` entails len(" + exprStr(ix.X) + ") >= " + exprStr(bound) + " here (" + how + ")"
+			} else {
+				why = "the guard `" + exprStr(b) + "` is not entailed to have failed at the index: " + how
+			}
+			return true
+		})
+		return proved, why
+	}
+	return false, ""
 }
 
 func startsAtZero(info *types.Info, fs *ast.ForStmt) bool {
